@@ -289,13 +289,26 @@ func (s *Store) contentAt(k int) map[uint][]byte {
 			continue
 		}
 		switch op.Kind {
-		case 'S':
+		case 'S', 'X':
 			m[op.Key] = append([]byte(nil), op.Val...)
 		case 'D':
 			delete(m, op.Key)
 		}
 	}
 	return m
+}
+
+// Damage replaces the stored value of key behind the client's back (logged
+// as operation kind 'X'): what a medium does to a record while the process runs.
+func (s *Store) Damage(key uint, v []byte) {
+	s.w.mu.Lock()
+	defer s.w.mu.Unlock()
+	v = append([]byte(nil), v...)
+	if s.inner != nil {
+		s.inner.Save(key, net.Buffers{v})
+	}
+	s.m[key] = v
+	s.record(StoreOp{Kind: 'X', Key: key, Val: v})
 }
 
 // Has tells whether the key is present now.
